@@ -84,7 +84,9 @@ class Grid(object):
 
     def pretty(self):
         tb = '+' + '-' * self.cols + '+\n'
-        return tb + '\n'.join('|' + l + '|' for l in self.text_rows()) + '\n' + tb
+        # "similar to __str__ except that it adds a box": the box goes around the lines of str(), which are the rows
+        # unless a cell holds a line feed itself
+        return tb + '\n'.join('|' + l + '|' for l in self.str().split('\n')) + '\n' + tb
 
     def cursor_home(self, r=1, c=1):
         self.cr, self.cc = self.rc(r, c)
